@@ -114,10 +114,18 @@ def check(run):
                 chunk = cuts[j:j + 64]
                 lines.append("rdc %s %s %s" % (kind, data.hex(), ",".join(map(str, chunk))))
                 metas.append((data, pre, blocks, hdr_end, ends, chunk))
+    import time as _t; _t0 = _t.time()
     answers = G.run_rd(lines)
+    run.count('seconds:library on cuts', int(_t.time() - _t0))
     # the schema model of CdnsReader (header + read_block loop, Model.File.readBlock – the subject of C05.truncated_blocks) on the same cuts
-    mlines = ["blkc " + " ".join(l.split()[2:]) for l in lines]
-    manswers = G.run_driver(mlines) if run.driver_ok else [None] * len(lines)
+    # (the model re-reads the whole prefix for every cut: on files above 20 KB only every third chunk of cuts is replayed on it,
+    #  above 70 KB every sixth)
+    msel = [i for i, (l, mt) in enumerate(zip(lines, metas)) if len(mt[0]) <= 20000 or i % (3 if len(mt[0]) <= 70000 else 6) == 0]
+    mres = G.run_driver(["blkc " + " ".join(lines[i].split()[2:]) for i in msel]) if run.driver_ok else [None] * len(msel)
+    run.count('seconds:model on cuts', int(_t.time() - _t0))
+    manswers = [None] * len(lines)
+    for i, a in zip(msel, mres):
+        manswers[i] = a
     # answers are digests "<length>:<fnv64>" of the full answer string; the expected digests are computed incrementally per file
     digests = {}
     def expected_digests(data, pre, blocks):
